@@ -173,3 +173,97 @@ where
     }
     JoinHandle(r.ok())
 }
+
+// ---------------------------------------------------------------------------------------
+// Additions for harness/owh (octopii/src/wal/mod.rs, state_machine.rs, openraft/storage.rs):
+//   tokio::time::{Duration, sleep}, tokio::task::block_in_place,
+//   tokio::runtime::Handle::{current, block_on}, tokio::sync::{Mutex, RwLock}.
+// Single-threaded, every future immediately ready (same convention as above).
+
+pub mod time {
+    pub use std::time::Duration;
+    use std::future::{ready, Ready};
+
+    /// Real: completes after `d` without blocking the thread. Here: blocks the (only) thread.
+    pub fn sleep(d: Duration) -> Ready<()> {
+        std::thread::sleep(d);
+        ready(())
+    }
+}
+
+pub mod task {
+    /// Real: tells the multi-thread runtime that the closure blocks, then runs it on the
+    /// current thread. Here: just runs it.
+    pub fn block_in_place<F, R>(f: F) -> R
+    where
+        F: FnOnce() -> R,
+    {
+        f()
+    }
+}
+
+pub mod runtime {
+    use std::future::Future;
+
+    #[derive(Clone, Debug)]
+    pub struct Handle(());
+
+    impl Handle {
+        pub fn current() -> Handle {
+            Handle(())
+        }
+        pub fn block_on<F: Future>(&self, fut: F) -> F::Output {
+            crate::shim::block_on(fut)
+        }
+    }
+}
+
+pub mod sync {
+    //! Async Mutex / RwLock whose lock futures are immediately ready. There is one thread and
+    //! no task ever waits while holding a guard across a pending await (nothing is pending),
+    //! so contention cannot occur; a lock that is already held is a harness bug and panics.
+    //! Like real tokio, no poisoning.
+    use std::future::{ready, Ready};
+
+    #[derive(Debug, Default)]
+    pub struct Mutex<T>(std::sync::Mutex<T>);
+    pub type MutexGuard<'a, T> = std::sync::MutexGuard<'a, T>;
+
+    impl<T> Mutex<T> {
+        pub fn new(t: T) -> Self {
+            Mutex(std::sync::Mutex::new(t))
+        }
+        pub fn lock(&self) -> Ready<MutexGuard<'_, T>> {
+            ready(match self.0.try_lock() {
+                Ok(g) => g,
+                Err(std::sync::TryLockError::Poisoned(p)) => p.into_inner(),
+                Err(std::sync::TryLockError::WouldBlock) => panic!("tokio shim: Mutex already held"),
+            })
+        }
+    }
+
+    #[derive(Debug, Default)]
+    pub struct RwLock<T>(std::sync::RwLock<T>);
+    pub type RwLockReadGuard<'a, T> = std::sync::RwLockReadGuard<'a, T>;
+    pub type RwLockWriteGuard<'a, T> = std::sync::RwLockWriteGuard<'a, T>;
+
+    impl<T> RwLock<T> {
+        pub fn new(t: T) -> Self {
+            RwLock(std::sync::RwLock::new(t))
+        }
+        pub fn read(&self) -> Ready<RwLockReadGuard<'_, T>> {
+            ready(match self.0.try_read() {
+                Ok(g) => g,
+                Err(std::sync::TryLockError::Poisoned(p)) => p.into_inner(),
+                Err(std::sync::TryLockError::WouldBlock) => panic!("tokio shim: RwLock write-held"),
+            })
+        }
+        pub fn write(&self) -> Ready<RwLockWriteGuard<'_, T>> {
+            ready(match self.0.try_write() {
+                Ok(g) => g,
+                Err(std::sync::TryLockError::Poisoned(p)) => p.into_inner(),
+                Err(std::sync::TryLockError::WouldBlock) => panic!("tokio shim: RwLock already held"),
+            })
+        }
+    }
+}
